@@ -365,9 +365,27 @@ def report_key(report):
     return kind, fn[:120]
 
 
-def run_tool(cmd, text, fname, allow_terminate, timeout=30, keep=False, extra_files=None):
+def _run_limited(cmd, cwd, env, cpu, wall):
+    """run cmd with a CPU time limit (RLIMIT_CPU: SIGXCPU, then SIGKILL) and a (large) wall clock limit.
+    Returns (rc, stdout, stderr, cpu exhausted, wall exhausted).  The CPU limit makes the verdict independent
+    of the load of the machine: a starved process is not a hanging process."""
+    full = ["prlimit", "--cpu=%d:%d" % (cpu, cpu + 5)] + list(cmd)
+    p = subprocess.Popen(full, cwd=cwd, env=env, stdout=subprocess.PIPE, stderr=subprocess.PIPE, stdin=subprocess.DEVNULL)
+    try:
+        so, se = p.communicate(timeout=wall)
+        walled = False
+    except subprocess.TimeoutExpired:
+        p.kill()
+        so, se = p.communicate()
+        walled = True
+    rc = p.returncode
+    cpued = (not walled) and rc == -signal.SIGXCPU
+    return rc, so.decode(errors="replace"), se.decode(errors="replace"), cpued, walled
+
+
+def run_tool(cmd, text, fname, allow_terminate, timeout=30, keep=False, extra_files=None, wall=600):
     """run `cmd` (list, the input file name is appended) in a fresh scratch
-    directory holding `text` as `fname`; returns an Outcome"""
+    directory holding `text` as `fname`; returns an Outcome.  `timeout` is a CPU time limit."""
     d = new_scratch("b")
     try:
         write_text(os.path.join(d, fname), text)
@@ -375,7 +393,13 @@ def run_tool(cmd, text, fname, allow_terminate, timeout=30, keep=False, extra_fi
             write_text(os.path.join(d, n), content)
         env = fuzzpy.asan_env({"ASAN_OPTIONS": SAN_ASAN + ":log_path=" + os.path.join(d, "san"),
                                "UBSAN_OPTIONS": SAN_UBSAN + ":log_path=" + os.path.join(d, "san")})
-        rc, so, se = run(list(cmd) + [fname], cwd=d, timeout=timeout, env=env)
+        rc, so, se, cpued, walled = _run_limited(list(cmd) + [fname], d, env, timeout, wall)
+        if walled:
+            return Outcome("starved", "no termination within %d s of wall clock, CPU limit not reached" % wall, "", rc, se[-1500:])
+        if cpued:
+            rc = -999
+        elif rc == -signal.SIGKILL:
+            return Outcome("starved", "killed (out of memory killer?)", "", rc, se[-1500:])
         reports = sorted(glob.glob(os.path.join(d, "san.*")))
         rep = ""
         for r in reports:
@@ -390,7 +414,7 @@ def run_tool(cmd, text, fname, allow_terminate, timeout=30, keep=False, extra_fi
                 return Outcome("error", "asan allocation limit", "", rc, se[-1500:], rep[:1500])
             return Outcome("violation", "sanitizer report", "%s.%s" % (kind, fn), rc, se[-1500:], rep[:6000])
         if rc == -999:
-            return Outcome("timeout", "no termination within %d s" % timeout, "timeout", rc, se[-1500:])
+            return Outcome("timeout", "no termination within %d s of CPU time" % timeout, "timeout", rc, se[-1500:])
         if rc == 0:
             return Outcome("ok", "", "", rc, se[-1500:])
         if rc > 0:
